@@ -105,6 +105,7 @@ class Stats:
         self.oracle_applied = 0
         self.theorem_instances = 0
         self.nviol = 0
+        self.hist_viol = 0
         self.missing_sizes = {}
         self.sup_sizes = {}
 
@@ -129,6 +130,9 @@ def compare(res, st, tag, cases, impl, model, f20_entry):
             i = i.rstrip("\n")
             m = m.rstrip("\n")
             st.flags[flags] = st.flags.get(flags, 0) + 1
+            third = flags.endswith("t")      # process in a third-party library (history stage): never reported
+            if third:
+                flags = flags[:-1]
             cat = flags[-1]
 
             def viol(what, kind, nf=False, **extra):
@@ -156,6 +160,12 @@ def compare(res, st, tag, cases, impl, model, f20_entry):
             # --- oracle: the property itself
             prop_ok = True
             nontrivial = False
+            if third:
+                if di[0] or di[1]:
+                    viol("a process in a third-party library got a sensitivity-list diagnostic", "input")
+                st.oracle_applied += 1
+                res.count_case(cid + ast, False)
+                continue
             if cat in "kan":
                 if di[0] or di[1]:
                     prop_ok = False
@@ -291,12 +301,58 @@ def main(tier, replay=None):
         sampled = compare(res, st, tag, cases, impl, model, f20_entry)
         coq_cross_check(res, cases + ".coq", sampled)
 
+    def hist_stream(tag, mode, n):
+        """incremental stage: one Project through update_source+analyse steps vs a fresh Project vs the model"""
+        base = os.path.join(d, tag)
+        for x in ("hist", "verdicts", "pcases", "pimpl", "pmodel"):
+            if os.path.exists(base + "." + x):
+                os.remove(base + "." + x)
+        rc, out = run([hbin, mode, str(seed()), str(n), os.path.join(d, "hproj"), base, "-"], timeout=3000)
+        if rc != 0 or not os.path.exists(base + ".verdicts"):
+            res.violation("harness c20 crashed in mode %s" % mode, {"kind": "harness", "log": out[-2000:]}, no_failing_input=True)
+            return
+        hists = {}
+        for line in open(base + ".hist"):
+            if line.strip():
+                hists[json.loads(line)["id"]] = line.strip()
+        steps = 0
+        shrinking = 0
+        for line in open(base + ".verdicts"):
+            hid, step, verdict, detail = line.rstrip("\n").split("\t", 3)
+            steps += 1
+            if verdict != "SAME":
+                st.nviol += 1
+                if st.hist_viol < 4:
+                    st.hist_viol += 1
+                    res.violation("after step %s of history %s the incremental project's sensitivity-list diagnostics differ "
+                                  "from a freshly built project on the same contents (linter cache): %s" % (step, hid, detail[:400]),
+                                  {"kind": "history", "id": hid, "step": int(step), "detail": detail,
+                                   "history": json.loads(hists.get(hid, "{}")),
+                                   "replay_cmd": "./check C20 --replay <this file>"})
+        res.coverage.setdefault("history_steps", {})[tag] = steps
+        res.coverage.setdefault("histories", {})[tag] = len(hists)
+        with open(base + ".pcases") as fin, open(base + ".pmodel", "w") as fout:
+            p = subprocess.run([mbin], stdin=fin, stdout=fout)
+        if p.returncode != 0:
+            res.violation("extracted model runner failed", {"kind": "build"}, no_failing_input=True)
+            return
+        compare(res, st, tag, base + ".pcases", base + ".pimpl", base + ".pmodel", f20_entry)
+
     if replay:
         rp = json.load(open(replay))
-        path = os.path.join(d, "replay.in")
-        open(path, "w").write(rp["case"] + "\n")
-        stream("replay", "file:" + path, 0)
+        if "history" in rp:
+            path = os.path.join(d, "replay.hist")
+            open(path, "w").write(json.dumps(rp["history"]) + "\n")
+            hist_stream("replayhist", "histfile:" + path, 0)
+        else:
+            path = os.path.join(d, "replay.in")
+            open(path, "w").write(rp["case"] + "\n")
+            stream("replay", "file:" + path, 0)
     else:
+        hcorpus = os.path.join(VERIF, "corpus", "C20.hist")
+        if os.path.exists(hcorpus):
+            hist_stream("histcorpus", "histfile:" + hcorpus, 0)
+        hist_stream("hist", "hist", 2000 if tier == "thorough" else 150)
         corpus = os.path.join(VERIF, "corpus", "C20.cases")
         if os.path.exists(corpus):
             stream("corpus", "file:" + corpus, 0)
